@@ -40,6 +40,11 @@ func (m *Model) delete() {
 }
 
 func (m *Model) addFund(address types.Address, pubkey *types.Pubkey, candidateID uint32, coin types.CoinID, value *big.Int, moveToCandidateID uint32) {
+	if pubkey != nil {
+		// the item keeps the key the funds were frozen under: a copy, not a pointer into the candidate, whose key may change
+		key := *pubkey
+		pubkey = &key
+	}
 	m.lock.Lock()
 	var moveToCandidate []uint32
 	if moveToCandidateID != 0 {
